@@ -157,11 +157,21 @@ static void do_action(const char *a)
     else if (!strncmp(a, "send:", 5)) xmpp_send_raw(conn, a + 5, strlen(a + 5));
 }
 
+/* a broken dispatch loop can keep calling handlers for ever (e.g. two handlers that delete and re-add each
+   other, visited again and again); after RUNAWAY_LIMIT invocations in one scenario the scripted callbacks stop
+   acting and return 0, so the scenario ends and the trace shows RUNAWAY instead of the driver hanging */
+#define RUNAWAY_LIMIT 3000
+static long ninvocations;
+
 static int run_beh(int fam, int cb, int ud)
 {
     struct beh *b = &behs[fam][cb][ud];
     struct entry *e;
     char buf[160], *p, *q;
+    if (++ninvocations > RUNAWAY_LIMIT) {
+        if (ninvocations == RUNAWAY_LIMIT + 1) tr("RUNAWAY ");
+        return 0;
+    }
     if (b->n == 0) { b->calls++; return 1; }
     e = &b->e[b->calls < b->n ? b->calls : b->n - 1];
     b->calls++;
@@ -303,6 +313,7 @@ static void begin(void)
 {
     now_ms = 1000000;
     select_mode = 0;
+    ninvocations = 0;
     tlen = 0; trace[0] = 0;
     memset(behs, 0, sizeof(behs));
     memset(defs, 0, sizeof(defs));
